@@ -243,7 +243,7 @@ Proof.
       * (* next unit *)
         destruct (has sflags SF_PACKED && negb (Z.land ((B0 - fob) * 8 + b0) 7 =? 0)); [discriminate|].
         injection H as <-.
-        rewrite shiftr3, land7, Z.add_0_l.
+        rewrite ?Z.add_0_l, shiftr3, land7.
         pose proof (split8 bits). pose proof (mod8_bound bits). pose proof (carry_pos bits Hbpos).
         assert (0 <= bits / 8) by (apply Z.div_pos; lia).
         apply winv_finish; auto; try lia.
@@ -301,8 +301,8 @@ Proof.
     destruct Hok as ((Hb & Han & Hfl) & Hok2).
     destruct (layout_total ft Hcl) as (ti & Eti & Hp & Hm & Hsz).
     rewrite mloop_cons, Eti in H. cbn [bind] in H.
-    destruct (field_step u sflags pack (match fs with [] => true | _ :: _ => false end) st named ft ti bits)
-      as [st1|] eqn:E1; [|discriminate]. cbn [bind] in H.
+    match type of H with bind ?X _ = _ => destruct X as [st1|] eqn:E1; [|discriminate] end.
+    cbn [bind] in H.
     destruct (Hfacts ti Eti) as (HA & HC).
     assert (Hv : field_valid P named ft ti bits).
     { split; auto. destruct Hb as [?|(Hnn & HP0 & (s0 & a0 & -> & Hw) & Hz)]; [left; auto|right].
@@ -328,13 +328,13 @@ Proof.
   assert (Hsx : x <= size) by (subst size; destruct (Z.eqb_spec x 0); lia).
   split.
   - intros HA. eapply Forall_impl; [|apply (w_fld _ _ _ W HA)].
-    intros c (H0 & Hb & [H|(a & Ha & Hle & Hd & Hs & Hlt)]); repeat split; auto; [lia|].
+    intros c (H0 & Hb & [H|(a & Ha & Hle & Hd & Hs & Hlt)]); (split; [exact H0|split; [|exact Hb]]); [lia|].
     pose proof (pow2_divide a (alignment st) Ha Hp Hle) as Hda.
     pose proof (Z.divide_trans _ _ _ Hda Hdx) as Hdax.
     destruct Hd as (k & Hk). destruct Hdax as (j & Hj). pose proof (is_pow2_pos _ Ha).
     assert (k < j) by nia. nia.
   - intros HC. eapply chain_hi; [|apply (w_chain _ _ _ W HC)].
-    pose proof (bits_le_bytes _ _ (w_bit _ _ _ W)). pose proof (w_max _ _ _ W). lia.
+    pose proof (bits_le_bytes (byteoffset st) (bitoffset st) (w_bit _ _ _ W)). pose proof (w_max _ _ _ W). lia.
 Qed.
 
 Lemma bfsa_fields (fs : list (bool * ctype * Z)) :
@@ -368,10 +368,10 @@ Theorem layout_within t : in_class t -> forall ti, cffi_layout t = Ok ti ->
   (union_free t -> chain 0 (ti_fields ti) (8 * Z.max 0 (ti_size ti))).
 Proof.
   induction t as [s a b|it n IH|u P fs IH] using ctype_ind2; intros Hc ti E.
-  - cbn in E. injection E as <-. cbn. split; intros; [constructor|lia].
+  - cbn in E. injection E as <-. cbn [ti_fields ti_size chain]. split; intros; [apply Forall_nil|cbn [chain]; lia].
   - cbn [cffi_layout] in E. destruct (cffi_layout it) as [ii|]; [|discriminate]. cbn [bind] in E.
     destruct (ti_size ii <? 0); [discriminate|]. injection E as <-. cbn [ti_fields ti_size chain].
-    split; intros; [constructor|lia].
+    split; intros; [apply Forall_nil|cbn [chain]; lia].
   - cbn [in_class] in Hc. destruct Hc as (HP & Hok & Hall). apply in_class_fields in Hall.
     rewrite cffi_layout_agg in E.
     pose proof (effective_flags_ok P HP) as Hfl.
@@ -383,22 +383,18 @@ Proof.
     set (A := bf_size_le_align (TAgg u P fs)). set (C := union_free (TAgg u P fs)).
     assert (HCu : C -> u = false) by (intros HC; apply HC).
     assert (Hm : Forall (member_facts A C) fs).
-    { rewrite Forall_forall in *. intros f Hin. split; [auto|]. intros ti Eti.
-      destruct (IH f Hin (Hall f Hin) ti Eti) as (IH1 & IH2).
+    { rewrite Forall_forall in *. intros [[nm ft] bts] Hin. split; [apply (Hall _ Hin)|]. intros ti Eti.
+      destruct (IH _ Hin (Hall _ Hin) ti Eti) as (IH1 & IH2).
+      cbn [f_type f_bits f_named fst snd] in *.
       split.
       - intros HA. unfold A in HA. cbn [bf_size_le_align] in HA. apply bfsa_fields in HA.
-        rewrite Forall_forall in HA. destruct (HA f Hin) as (Hsa & Hbf).
+        rewrite Forall_forall in HA. destruct (HA _ Hin) as (Hsa & Hbf). cbn [f_type f_bits fst snd] in *.
         split; [auto|]. intros Hnn.
-        destruct (f_type f) as [s0 a0 b0| |] eqn:Eft.
-        + cbn in Eti. injection Eti as <-. cbn. eapply Hsa; eauto.
-        + pose proof (fields_ok_In P fs f Hin Hok) as (last & (Hb & _)).
-          destruct f as [[nm ft] bts]. cbn [f_type f_bits fst snd] in *. subst ft.
-          destruct Hb as [?|(_ & _ & (s1 & a1 & Habs & _) & _)]; [lia|discriminate].
-        + pose proof (fields_ok_In P fs f Hin Hok) as (last & (Hb & _)).
-          destruct f as [[nm ft] bts]. cbn [f_type f_bits fst snd] in *. subst ft.
-          destruct Hb as [?|(_ & _ & (s1 & a1 & Habs & _) & _)]; [lia|discriminate].
+        destruct (fields_ok_In P fs _ Hin Hok) as (last & (Hb & _)).
+        destruct Hb as [?|(_ & _ & (s1 & a1 & -> & _) & _)]; [lia|].
+        cbn in Eti. injection Eti as <-. cbn [ti_size ti_align]. eapply Hsa; eauto.
       - intros HC Hnm. apply IH2. unfold C in HC. cbn [union_free] in HC. destruct HC as (_ & HC).
-        apply union_free_fields in HC. rewrite Forall_forall in HC. auto. }
+        apply union_free_fields in HC. rewrite Forall_forall in HC. apply (HC _ Hin). exact Hnm. }
     pose proof (mloop_within A C u sflags pack P Hf Hpr HCu fs lstate0 st' (winv0 A C) Hok Hm El) as W.
     destruct (finish_within A C st' W) as (F1 & F2). split; auto.
 Qed.
